@@ -382,6 +382,382 @@ theorem mem_foldl_setAdd (l : List String) (x : String) : ∀ (S : List String),
       · exact Or.inl (Or.inr h)
       · exact Or.inr h
 
+/-! ### Preservation of the invariant -/
+
+theorem mem_speciesOf (e : Edge) (sp : String) :
+    sp ∈ e.speciesOf ↔ sp ∈ e.reactants.keys ∨ sp ∈ e.products.keys := by
+  simp [Edge.speciesOf]
+
+theorem inj_of_nodup_map {α β} (f : α → β) (l : List α) (h : (l.map f).Nodup) :
+    ∀ x ∈ l, ∀ y ∈ l, f x = f y → x = y := by
+  induction l with
+  | nil => intro x hx; simp at hx
+  | cons a l ih =>
+    simp only [List.map_cons, List.nodup_cons, List.mem_map, not_exists, not_and] at h
+    intro x hx y hy hxy
+    simp only [List.mem_cons] at hx hy
+    rcases hx with rfl | hx <;> rcases hy with rfl | hy
+    · rfl
+    · exact absurd hxy.symm (h.1 y hy)
+    · exact absurd hxy (h.1 x hx)
+    · exact ih h.2 x hx y hy hxy
+
+theorem Store.Inv.edge_unique {s : Store} (h : s.Inv) {e1 e2 : Edge} (h1 : e1 ∈ s.edges)
+    (h2 : e2 ∈ s.edges) (heq : e1.id = e2.id) : e1 = e2 :=
+  inj_of_nodup_map (fun e : Edge => e.id) s.edges h.ids_nodup e1 h1 e2 h2 heq
+
+/-- Only `counters` differs. -/
+theorem Store.Inv.of_fields_eq {s s0 : Store} (h : s.Inv) (h1 : s0.edges = s.edges)
+    (h2 : s0.species = s.species) (h3 : s0.inIdx = s.inIdx) (h4 : s0.outIdx = s.outIdx)
+    (h5 : s0.mol = s.mol) (h6 : s0.kept = s.kept) : s0.Inv := by
+  obtain ⟨a, b, c, d, e, f, g⟩ := h
+  constructor
+  · simpa [Store.ids, h1] using a
+  · simpa [h1, h2, h6] using b
+  · simpa [h1, h3] using c
+  · simpa [h1, h4] using d
+  · simpa [h2, h5] using e
+  · simpa [h1] using f
+  · simpa [h1] using g
+
+theorem insertEdge_inv (s : Store) (e : Edge) (h : s.Inv) (hid : e.id ∉ s.ids)
+    (hr : e.reactants.keys.Nodup) (hp : e.products.keys.Nodup) (hne : e.isEmpty = false) :
+    (s.insertEdge e).Inv := by
+  constructor
+  · show ((s.edges ++ [e]).map (·.id)).Nodup
+    rw [List.map_append, List.nodup_append]
+    refine ⟨h.ids_nodup, by simp, ?_⟩
+    intro a ha b hb
+    simp only [List.map_cons, List.map_nil, List.mem_singleton] at hb
+    subst hb
+    intro hab; subst hab; exact hid ha
+  · intro sp
+    show sp ∈ e.speciesOf.foldl setAdd s.species ↔ (∃ e' ∈ s.edges ++ [e], sp ∈ e'.speciesOf) ∨ sp ∈ s.kept
+    rw [mem_foldl_setAdd, h.species_iff]
+    simp only [List.mem_append, List.mem_singleton]
+    constructor
+    · rintro ((⟨e', he', hs⟩ | hk) | he)
+      · exact Or.inl ⟨e', Or.inl he', hs⟩
+      · exact Or.inr hk
+      · exact Or.inl ⟨e, Or.inr rfl, he⟩
+    · rintro (⟨e', he' | he', hs⟩ | hk)
+      · exact Or.inl (Or.inl ⟨e', he', hs⟩)
+      · subst he'; exact Or.inr hs
+      · exact Or.inl (Or.inr hk)
+  · intro sp i
+    show i ∈ (idxAdd (idxTouch s.inIdx e.speciesOf) e.products.keys e.id).getD sp [] ↔
+      ∃ e' ∈ s.edges ++ [e], e'.id = i ∧ sp ∈ e'.products.keys
+    rw [mem_idxAdd, getD_idxTouch, h.in_iff]
+    simp only [List.mem_append, List.mem_singleton]
+    constructor
+    · rintro (⟨e', he', hs⟩ | ⟨h1, h2⟩)
+      · exact ⟨e', Or.inl he', hs⟩
+      · exact ⟨e, Or.inr rfl, h1.symm, h2⟩
+    · rintro ⟨e', he' | he', hs⟩
+      · exact Or.inl ⟨e', he', hs⟩
+      · subst he'; exact Or.inr ⟨hs.1.symm, hs.2⟩
+  · intro sp i
+    show i ∈ (idxAdd (idxTouch s.outIdx e.speciesOf) e.reactants.keys e.id).getD sp [] ↔
+      ∃ e' ∈ s.edges ++ [e], e'.id = i ∧ sp ∈ e'.reactants.keys
+    rw [mem_idxAdd, getD_idxTouch, h.out_iff]
+    simp only [List.mem_append, List.mem_singleton]
+    constructor
+    · rintro (⟨e', he', hs⟩ | ⟨h1, h2⟩)
+      · exact ⟨e', Or.inl he', hs⟩
+      · exact ⟨e, Or.inr rfl, h1.symm, h2⟩
+    · rintro ⟨e', he' | he', hs⟩
+      · exact Or.inl ⟨e', he', hs⟩
+      · subst he'; exact Or.inr ⟨hs.1.symm, hs.2⟩
+  · intro sp hsp
+    show sp ∈ e.speciesOf.foldl setAdd s.species
+    rw [mem_foldl_setAdd]
+    exact Or.inl (h.mol_sub sp hsp)
+  · intro e' he'
+    have he' : e' ∈ s.edges ++ [e] := he'
+    simp only [List.mem_append, List.mem_singleton] at he'
+    rcases he' with he' | he'
+    · exact h.sides_wf e' he'
+    · subst he'; exact ⟨hr, hp⟩
+  · intro e' he'
+    have he' : e' ∈ s.edges ++ [e] := he'
+    simp only [List.mem_append, List.mem_singleton] at he'
+    rcases he' with he' | he'
+    · exact h.nonempty e' he'
+    · subst he'; exact hne
+
+theorem addNorm_inv (s : Store) (r p : Side) (rule eid) (h : s.Inv)
+    (hr : r.keys.Nodup) (hp : p.keys.Nodup) : (s.addNorm r p rule eid).1.Inv := by
+  rcases hres : s.addNorm r p rule eid with ⟨s', res⟩
+  cases res with
+  | ok i =>
+    obtain ⟨h1, h2, s0, e1, e2, e3, e4, e5, e6, hs'⟩ := addNorm_ok _ _ _ _ _ _ _ hres
+    subst hs'
+    have h0 : s0.Inv := h.of_fields_eq e1 e2 e3 e4 e5 e6
+    apply insertEdge_inv s0 _ h0
+    · simpa [Store.ids, e1] using h1
+    · exact hr
+    · exact hp
+    · exact h2
+  | error err =>
+    unfold Store.addNorm at hres
+    cases eid with
+    | some i0 =>
+      simp only at hres
+      split at hres
+      · simp only [Prod.mk.injEq] at hres; rw [← hres.1]; exact h
+      · split at hres
+        · simp only [Prod.mk.injEq] at hres; rw [← hres.1]; exact h
+        · simp at hres
+    | none =>
+      simp only at hres
+      split at hres
+      · simp only [Prod.mk.injEq] at hres; rw [← hres.1]
+        exact h.of_fields_eq rfl rfl rfl rfl rfl rfl
+      · simp at hres
+
+theorem normSide_nodup (raw : List (String × Int)) : (normSide raw).keys.Nodup := by
+  unfold normSide
+  suffices ∀ (out : Side), out.keys.Nodup →
+      (raw.foldl (fun out kv => if kv.2 > 0 then out.set kv.1 (out.getD kv.1 0 + kv.2.toNat) else out) out).keys.Nodup by
+    exact this [] (by simp [Dict.keys])
+  induction raw with
+  | nil => intro out h; exact h
+  | cons a raw ih =>
+    intro out h
+    simp only [List.foldl_cons]
+    apply ih
+    split
+    · exact nodup_keys_set _ _ _ h
+    · exact h
+
+theorem add_inv (s : Store) (r p rule eid) (h : s.Inv) : (s.add r p rule eid).1.Inv :=
+  addNorm_inv s _ _ rule eid h (normSide_nodup r) (normSide_nodup p)
+
+theorem merge_inv (other : List Edge) (pfx : Bool) : ∀ (s : Store), s.Inv →
+    (∀ e ∈ other, e.reactants.keys.Nodup ∧ e.products.keys.Nodup) → (s.merge other pfx).1.Inv := by
+  induction other with
+  | nil => intro s h _; exact h
+  | cons e rest ih =>
+    intro s h hw
+    unfold Store.merge
+    have hs1 : (if pfx || e.id ∈ s.ids then s.nextId e.rule else (s, e.id)).1.Inv := by
+      split
+      · exact h.of_fields_eq rfl rfl rfl rfl rfl rfl
+      · exact h
+    rcases hh : (if pfx || e.id ∈ s.ids then s.nextId e.rule else (s, e.id)) with ⟨s1, newId⟩
+    rw [hh] at hs1
+    simp only
+    have h2 := addNorm_inv s1 e.reactants e.products (some e.rule) (some newId) hs1
+      (hw e (List.mem_cons_self ..)).1 (hw e (List.mem_cons_self ..)).2
+    split
+    · rename_i s2 _ heq
+      rw [heq] at h2
+      exact ih s2 h2 (fun e' he' => hw e' (List.mem_cons_of_mem _ he'))
+    · rename_i s2 err heq
+      rw [heq] at h2
+      exact h2
+
+theorem assignMol_inv (s : Store) (sp m : String) (h : s.Inv) : (s.assignMol sp m).1.Inv := by
+  unfold Store.assignMol
+  split
+  · rename_i hsp
+    obtain ⟨a, b, c, d, e, f, g⟩ := h
+    refine ⟨a, b, c, d, ?_, f, g⟩
+    intro sp' hsp'
+    have hsp' : sp' ∈ (s.mol.set sp m).keys := hsp'
+    rw [Dict.mem_keys_set] at hsp'
+    rcases hsp' with h1 | h1
+    · exact e sp' h1
+    · subst h1; exact hsp
+  · exact h
+
+/-! ### `remove` and `removeSpecies`: invariant with pending orphan checks -/
+
+/-- `Inv` where `species` may additionally contain the species in `P` (whose orphan test is
+still pending). -/
+structure Store.InvP (s : Store) (P : List String) : Prop where
+  ids_nodup : s.ids.Nodup
+  sp_fwd : ∀ sp, sp ∈ s.species → (∃ e ∈ s.edges, sp ∈ e.speciesOf) ∨ sp ∈ s.kept ∨ sp ∈ P
+  sp_bwd : ∀ sp, (∃ e ∈ s.edges, sp ∈ e.speciesOf) ∨ sp ∈ s.kept → sp ∈ s.species
+  in_iff : ∀ sp i, i ∈ s.inIdx.getD sp [] ↔ ∃ e ∈ s.edges, e.id = i ∧ sp ∈ e.products.keys
+  out_iff : ∀ sp i, i ∈ s.outIdx.getD sp [] ↔ ∃ e ∈ s.edges, e.id = i ∧ sp ∈ e.reactants.keys
+  mol_sub : ∀ sp ∈ s.mol.keys, sp ∈ s.species
+  sides_wf : ∀ e ∈ s.edges, e.reactants.keys.Nodup ∧ e.products.keys.Nodup
+  nonempty : ∀ e ∈ s.edges, e.isEmpty = false
+
+theorem Store.InvP.toInv {s : Store} (h : s.InvP []) : s.Inv := by
+  obtain ⟨a, b, c, d, e, f, g, k⟩ := h
+  refine ⟨a, ?_, d, e, f, g, k⟩
+  intro sp
+  constructor
+  · intro hsp
+    rcases b sp hsp with h1 | h1 | h1
+    · exact Or.inl h1
+    · exact Or.inr h1
+    · simp at h1
+  · exact c sp
+
+theorem dropIfOrphan_invP (s : Store) (sp : String) (P : List String) (h : s.InvP (sp :: P)) :
+    (s.dropIfOrphan sp).InvP P := by
+  obtain ⟨a, b, c, d, e, f, g, k⟩ := h
+  unfold Store.dropIfOrphan
+  split
+  · rename_i ht
+    simp only [Bool.and_eq_true, List.isEmpty_iff] at ht
+    obtain ⟨hin, hout⟩ := ht
+    -- no edge mentions `sp`
+    have hno : ∀ e' ∈ s.edges, sp ∉ e'.speciesOf := by
+      intro e' he' hsp
+      rw [mem_speciesOf] at hsp
+      rcases hsp with hsp | hsp
+      · have := (e sp e'.id).2 ⟨e', he', rfl, hsp⟩
+        rw [hout] at this; simp at this
+      · have := (d sp e'.id).2 ⟨e', he', rfl, hsp⟩
+        rw [hin] at this; simp at this
+    refine ⟨a, ?_, ?_, ?_, ?_, ?_, g, k⟩
+    · intro sp' hsp'
+      have hsp' : sp' ∈ setDiscard s.species sp := hsp'
+      rw [mem_setDiscard] at hsp'
+      rcases b sp' hsp'.1 with h1 | h1 | h1
+      · exact Or.inl h1
+      · exact Or.inr (Or.inl ((mem_setDiscard _ _ _).2 ⟨h1, hsp'.2⟩))
+      · simp only [List.mem_cons] at h1
+        rcases h1 with h1 | h1
+        · exact absurd h1 hsp'.2
+        · exact Or.inr (Or.inr h1)
+    · intro sp' hsp'
+      show sp' ∈ setDiscard s.species sp
+      rw [mem_setDiscard]
+      rcases hsp' with ⟨e', he', hs⟩ | hk
+      · refine ⟨c sp' (Or.inl ⟨e', he', hs⟩), ?_⟩
+        intro heq; subst heq; exact hno e' he' hs
+      · have hk : sp' ∈ setDiscard s.kept sp := hk
+        rw [mem_setDiscard] at hk
+        exact ⟨c sp' (Or.inr hk.1), hk.2⟩
+    · intro sp' i
+      show i ∈ (s.inIdx.erase sp).getD sp' [] ↔ _
+      by_cases hs : sp' = sp
+      · subst hs
+        rw [getD_erase_self]
+        constructor
+        · intro h; simp at h
+        · rintro ⟨e', he', _, hs⟩
+          exact absurd ((mem_speciesOf e' sp').2 (Or.inr hs)) (hno e' he')
+      · rw [getD_erase_other _ _ _ _ hs]; exact d sp' i
+    · intro sp' i
+      show i ∈ (s.outIdx.erase sp).getD sp' [] ↔ _
+      by_cases hs : sp' = sp
+      · subst hs
+        rw [getD_erase_self]
+        constructor
+        · intro h; simp at h
+        · rintro ⟨e', he', _, hs⟩
+          exact absurd ((mem_speciesOf e' sp').2 (Or.inl hs)) (hno e' he')
+      · rw [getD_erase_other _ _ _ _ hs]; exact e sp' i
+    · intro sp' hsp'
+      have hsp' : sp' ∈ (s.mol.erase sp).keys := hsp'
+      rw [Dict.mem_keys_erase] at hsp'
+      show sp' ∈ setDiscard s.species sp
+      rw [mem_setDiscard]
+      exact ⟨f sp' hsp'.1, hsp'.2⟩
+  · rename_i ht
+    refine ⟨a, ?_, c, d, e, f, g, k⟩
+    intro sp' hsp'
+    rcases b sp' hsp' with h1 | h1 | h1
+    · exact Or.inl h1
+    · exact Or.inr (Or.inl h1)
+    · simp only [List.mem_cons] at h1
+      rcases h1 with h1 | h1
+      · subst h1
+        left
+        simp only [Bool.and_eq_true, List.isEmpty_iff, not_and_or] at ht
+        rcases ht with ht | ht
+        · obtain ⟨i, hi⟩ := List.exists_mem_of_ne_nil _ ht
+          obtain ⟨e', he', _, hs⟩ := (d sp' i).1 hi
+          exact ⟨e', he', (mem_speciesOf e' sp').2 (Or.inr hs)⟩
+        · obtain ⟨i, hi⟩ := List.exists_mem_of_ne_nil _ ht
+          obtain ⟨e', he', _, hs⟩ := (e sp' i).1 hi
+          exact ⟨e', he', (mem_speciesOf e' sp').2 (Or.inl hs)⟩
+      · exact Or.inr (Or.inr h1)
+
+theorem foldl_dropIfOrphan_inv (P : List String) : ∀ (s : Store), s.InvP P →
+    (P.foldl Store.dropIfOrphan s).Inv := by
+  induction P with
+  | nil => intro s h; exact h.toInv
+  | cons a P ih => intro s h; exact ih _ (dropIfOrphan_invP s a P h)
+
+theorem findEdge_some (s : Store) (i : String) (e : Edge) (h : s.findEdge i = some e) :
+    e ∈ s.edges ∧ e.id = i := by
+  unfold Store.findEdge at h
+  exact ⟨List.mem_of_find?_eq_some h, by simpa using List.find?_some h⟩
+
+theorem remove_inv (s : Store) (i : String) (h : s.Inv) : (s.remove i).1.Inv := by
+  unfold Store.remove
+  split
+  · exact h
+  · rename_i e hf
+    obtain ⟨he, hid⟩ := findEdge_some s i e hf
+    apply foldl_dropIfOrphan_inv
+    have huniq : ∀ e' ∈ s.edges, e'.id = i → e' = e :=
+      fun e' he' h' => h.edge_unique he' he (h'.trans hid.symm)
+    constructor
+    · show ((s.edges.filter (·.id ≠ i)).map (·.id)).Nodup
+      exact List.Nodup.sublist (List.filter_sublist.map _) h.ids_nodup
+    · intro sp hsp
+      rcases (h.species_iff sp).1 hsp with ⟨e', he', hs⟩ | hk
+      · by_cases h' : e'.id = i
+        · rw [huniq e' he' h'] at hs; exact Or.inr (Or.inr hs)
+        · exact Or.inl ⟨e', by simp [he', h'], hs⟩
+      · exact Or.inr (Or.inl hk)
+    · intro sp hsp
+      apply (h.species_iff sp).2
+      rcases hsp with ⟨e', he', hs⟩ | hk
+      · exact Or.inl ⟨e', (List.mem_filter.1 he').1, hs⟩
+      · exact Or.inr hk
+    · intro sp i'
+      show i' ∈ (idxDiscard s.inIdx e.products.keys i).getD sp [] ↔
+        ∃ e' ∈ s.edges.filter (·.id ≠ i), e'.id = i' ∧ sp ∈ e'.products.keys
+      rw [mem_idxDiscard, h.in_iff]
+      constructor
+      · rintro ⟨⟨e', he', h1, h2⟩, h3⟩
+        refine ⟨e', ?_, h1, h2⟩
+        simp only [List.mem_filter, he', true_and, ne_eq, decide_not, Bool.not_eq_eq_eq_not,
+          Bool.not_true, decide_eq_false_iff_not]
+        intro h'
+        apply h3
+        rw [huniq e' he' h'] at h2
+        exact ⟨h1.symm.trans h', h2⟩
+      · rintro ⟨e', he', h1, h2⟩
+        simp only [List.mem_filter, ne_eq, decide_not, Bool.not_eq_eq_eq_not,
+          Bool.not_true, decide_eq_false_iff_not] at he'
+        refine ⟨⟨e', he'.1, h1, h2⟩, ?_⟩
+        rintro ⟨h3, _⟩
+        exact he'.2 (h1.trans h3)
+    · intro sp i'
+      show i' ∈ (idxDiscard s.outIdx e.reactants.keys i).getD sp [] ↔
+        ∃ e' ∈ s.edges.filter (·.id ≠ i), e'.id = i' ∧ sp ∈ e'.reactants.keys
+      rw [mem_idxDiscard, h.out_iff]
+      constructor
+      · rintro ⟨⟨e', he', h1, h2⟩, h3⟩
+        refine ⟨e', ?_, h1, h2⟩
+        simp only [List.mem_filter, he', true_and, ne_eq, decide_not, Bool.not_eq_eq_eq_not,
+          Bool.not_true, decide_eq_false_iff_not]
+        intro h'
+        apply h3
+        rw [huniq e' he' h'] at h2
+        exact ⟨h1.symm.trans h', h2⟩
+      · rintro ⟨e', he', h1, h2⟩
+        simp only [List.mem_filter, ne_eq, decide_not, Bool.not_eq_eq_eq_not,
+          Bool.not_true, decide_eq_false_iff_not] at he'
+        refine ⟨⟨e', he'.1, h1, h2⟩, ?_⟩
+        rintro ⟨h3, _⟩
+        exact he'.2 (h1.trans h3)
+    · exact h.mol_sub
+    · intro e' he'
+      exact h.sides_wf e' (List.mem_filter.1 he').1
+    · intro e' he'
+      exact h.nonempty e' (List.mem_filter.1 he').1
+
 theorem initWorld_inv (n : Nat) : ∀ s ∈ initWorld n, s.Inv := by sorry
 theorem inv_run (w : World) (ops : List Op) (h : ∀ s ∈ w, s.Inv) : ∀ s ∈ run w ops, s.Inv := by sorry
 theorem removeSpecies_edges (s s' : Store) (sp : String) (prune : Bool) (hinv : s.Inv)
